@@ -37,7 +37,7 @@ func init() {
 		Setup: func(c *core.Ctx) { geom.VerifSimplifyHook = hook },
 		Floors: func(t string) map[string]int64 {
 			return map[string]int64{"len.0": 20, "len.1": 20, "len.2": 20, "len.3": 20, "simple_input.judged": 3000, "dropped_vertices.checked": 10000, "shape.hook": 500, "shape.spiral": 500,
-				"tol.zero": 500, "tol.inf": 500, "boxwalk.simple_judged": 50000, "boxwalk.tail_returns_into_pocket": 15000, "boxwalk.vertices_dropped": 25000, "multi.members_independent": 500, "polygon.rings": 500, "hook.steps_seen": 10000}
+				"tol.zero": 500, "tol.inf": 500, "storage.members_share_one_backing_array": 1000, "boxwalk.simple_judged": 50000, "boxwalk.tail_returns_into_pocket": 15000, "boxwalk.vertices_dropped": 25000, "multi.members_independent": 500, "polygon.rings": 500, "hook.steps_seen": 10000}
 		},
 	})
 }
@@ -442,7 +442,21 @@ func run(c *core.Ctx, idx int) {
 		steps, stepsMax = 0, 4*(n+12)*(n+12)*4+1000
 		var got geom.Geom
 		d2 := map[string]interface{}{"input": gen.Dump(ml), "tolerance": fmt.Sprint(tol)}
+		var arena *gen.Arena
+		if r.Bool() {
+			// members as consecutive sub-slices of one backing array: an append to a member
+			// it was handed would write into the next member
+			arena = gen.InArena(ml)
+			ml = arena.G.(geom.MultiLineString)
+			d2["storage"] = "members are consecutive sub-slices of one backing array"
+			c.Count("storage.members_share_one_backing_array")
+		}
 		rec := core.Try(func() { got = ml.Simplify(tol) })
+		if arena != nil {
+			if ok, why := arena.Intact(); !ok {
+				c.Violate("input-modified:shared-storage:MultiLineString", "MultiLineString.Simplify modified its input: "+why, d2)
+			}
+		}
 		if rec != nil {
 			if s, ok := rec.(string); ok && s == sentinel {
 				c.Violate("non-terminating:MultiLineString", "MultiLineString.Simplify exceeded the bounded-progress limit", d2)
@@ -485,7 +499,19 @@ func run(c *core.Ctx, idx int) {
 		steps, stepsMax = 0, 4*(n+12)*(n+12)*4+1000
 		var got geom.Geom
 		d2 := map[string]interface{}{"input": gen.Dump(polyIn), "tolerance": fmt.Sprint(tol)}
+		var arena *gen.Arena
+		if r.Bool() {
+			arena = gen.InArena(polyIn)
+			polyIn = arena.G
+			d2["storage"] = "rings are consecutive sub-slices of one backing array"
+			c.Count("storage.members_share_one_backing_array")
+		}
 		rec := core.Try(func() { got = polyIn.(geom.Simplifier).Simplify(tol) })
+		if arena != nil {
+			if ok, why := arena.Intact(); !ok {
+				c.Violate("input-modified:shared-storage:polygon", "polygon Simplify modified its input: "+why, d2)
+			}
+		}
 		if rec != nil {
 			if s, ok := rec.(string); ok && s == sentinel {
 				c.Violate("non-terminating:"+fmt.Sprintf("%T", polyIn), "polygon Simplify exceeded the bounded-progress limit", d2)
